@@ -10,6 +10,7 @@ mod gen;
 mod judge;
 mod model;
 mod monitors;
+mod posfmt;
 mod scn;
 mod seam;
 
